@@ -455,7 +455,8 @@ type Input struct {
 	Raw   *RawIn   `json:"raw,omitempty"`
 	Sess  []Action `json:"sess,omitempty"`
 	Large bool     `json:"large,omitempty"`
-	// Fam: the session belongs to the family of textually confusable address pairs (confusable.go)
+	// Fam: the session belongs to the family of textually confusable address pairs (confusable.go:
+	// concat, glue, differ, prefix, mapped) or to the family of relayed datagrams ("udp-relay", udprelay.go)
 	Fam string `json:"fam,omitempty"`
 	// Key: Laddr.String()+Raddr.String() of this pair, as Go prints it (correspondence of the text model)
 	Key *KeyIn `json:"key,omitempty"`
@@ -563,6 +564,10 @@ func main() {
 			}
 			seenKey[l+" "+rr] = true
 			inputs = append(inputs, Input{Key: &KeyIn{L: *p.l, R: *p.r}})
+		}
+		// relayed UDP datagrams, several in flight, answered late and out of order (udprelay.go)
+		for _, c := range relaySessions(r, o.Tier, dist) {
+			inputs = append(inputs, Input{Sess: c.acts, Fam: c.fam})
 		}
 		nStress := 150
 		if o.Tier != "quick" {
@@ -687,7 +692,9 @@ func main() {
 			if in.Large {
 				kind = "session-large"
 			}
-			if in.Fam != "" {
+			if in.Fam == "udp-relay" {
+				kind = "session-udp-relay"
+			} else if in.Fam != "" {
 				kind = "session-confusable"
 				dist["confusable:sessions-"+in.Fam]++
 			}
